@@ -33,7 +33,8 @@ type vhWorldOpts struct {
 	secondEntity bool // local entity [2] with a second LoadControl server
 	subEntity    bool // peers announce sub-entity [1,1] as well
 	onlyA        bool
-	f1Write      bool
+	f1ReadOnly   bool
+	f4ReadOnly   bool
 	noEvents     bool
 }
 
@@ -108,7 +109,7 @@ func vhNewWorld(o vhWorldOpts) *vhWorld {
 	w.L = NewDeviceLocal("brand", "model", "serial", "code", "L", model.DeviceTypeTypeEnergyManagementSystem, model.NetworkManagementFeatureSetTypeSmart)
 	w.E1 = NewEntityLocal(w.L, model.EntityTypeTypeCEM, NewAddressEntityType([]uint{1}), 0)
 	w.F1 = w.E1.GetOrAddFeature(model.FeatureTypeTypeLoadControl, model.RoleTypeServer)
-	w.F1.AddFunctionType(model.FunctionTypeLoadControlLimitListData, true, true)
+	w.F1.AddFunctionType(model.FunctionTypeLoadControlLimitListData, true, !o.f1ReadOnly)
 	w.F1.AddFunctionType(model.FunctionTypeLoadControlLimitDescriptionListData, true, false)
 	w.F2 = w.E1.GetOrAddFeature(model.FeatureTypeTypeMeasurement, model.RoleTypeServer)
 	w.F2.AddFunctionType(model.FunctionTypeMeasurementListData, true, false)
@@ -117,7 +118,7 @@ func vhNewWorld(o vhWorldOpts) *vhWorld {
 	if o.secondEntity {
 		w.E2 = NewEntityLocal(w.L, model.EntityTypeTypeCEM, NewAddressEntityType([]uint{2}), 0)
 		w.F4 = w.E2.GetOrAddFeature(model.FeatureTypeTypeLoadControl, model.RoleTypeServer)
-		w.F4.AddFunctionType(model.FunctionTypeLoadControlLimitListData, true, true)
+		w.F4.AddFunctionType(model.FunctionTypeLoadControlLimitListData, true, !o.f4ReadOnly)
 		w.L.AddEntity(w.E2)
 	}
 	w.wA = &vhWriter{name: "A"}
